@@ -49,11 +49,13 @@ Definition dsthost (m : md) : str :=
   | _ => []
   end.
 
-(* table.go:312-350 matchingHosts / matchingHostNoGlob on keys without glob meta characters.
+(* table.go:312-350 matchingHosts / matchingHostNoGlob on keys without glob meta characters
+   (both lower-case the request host since /repo 3f5e3c8; [noglob] is kept as a parameter of
+   the cases, the two paths agree on this domain).
    Several matching keys would be sorted by sortHostsReverseHostPort; with keys that do not
    end in ":80" at most one key matches (see [keys_plain]), so the order is immaterial. *)
 Definition matching_keys (t : table) (noglob : bool) (reqhost : str) : list str :=
-  let h := if noglob then strip80 reqhost else norm_host reqhost in
+  let h := norm_host reqhost in
   filter (fun k => beq (norm_host k) h) (map fst t).
 
 Fixpoint first_match (path : str) (rs : list route) : option route :=
